@@ -1141,6 +1141,9 @@ func (p *printer) printNode(node any) error {
 
 	// format node
 	switch n := node.(type) {
+	case *ast.ForPhraseStmt:
+		// embeds *ast.ForPhrase and therefore also satisfies ast.Expr: it is a statement
+		p.stmt(n, false)
 	case ast.Expr:
 		p.expr(n)
 	case ast.Stmt:
